@@ -280,8 +280,24 @@ func vIdentFiles(c *vCase, ds *AnySource, what string) {
 		c.Inconclusive("setup", "ChangeTriggerState: %v", err)
 		return
 	}
-	// a one-component model on every stream, so that OFF files are written too
+	// a one-component model on every stream, or on some of them only (not a run of streams from 0 on), so that OFF files are
+	// written too
+	withModel := make([]bool, ds.nchan)
+	nmodels := 0
+	sparse := vChance(c.R, 0.6)
+	for ch := range withModel {
+		withModel[ch] = !sparse || vChance(c.R, 0.4)
+	}
+	if sparse {
+		withModel[0] = false
+		withModel[ds.nchan-1] = true
+		c.Cov("file_passes_with_models_on_some_streams", 1)
+	}
 	for ch := 0; ch < ds.nchan; ch++ {
+		if !withModel[ch] {
+			continue
+		}
+		nmodels++
 		pd, bd := make([]float64, nsamp), make([]float64, nsamp)
 		for i := range pd {
 			pd[i], bd[i] = 1.0/float64(nsamp), 1
@@ -333,8 +349,8 @@ func vIdentFiles(c *vCase, ds *AnySource, what string) {
 			ljh3 = append(ljh3, e.Name())
 		}
 	}
-	if len(ljh22) != ds.nchan || len(ljh3) != ds.nchan || len(offs) != ds.nchan {
-		c.Violate("c19:shared-file", "%s: %d streams each wrote one record, but the directory holds %d LJH2.2, %d LJH3 and %d OFF files: streams share output files", what, ds.nchan, len(ljh22), len(ljh3), len(offs))
+	if len(ljh22) != ds.nchan || len(ljh3) != ds.nchan || len(offs) != nmodels {
+		c.Violate("c19:shared-file", "%s: %d streams each wrote one record, but the directory holds %d LJH2.2, %d LJH3 and %d OFF files: streams share output files (%d streams have a model)", what, ds.nchan, len(ljh22), len(ljh3), len(offs), nmodels)
 		return
 	}
 	names := ds.ChannelNames()
@@ -348,8 +364,8 @@ func vIdentFiles(c *vCase, ds *AnySource, what string) {
 		}
 		h := pf.hdr
 		idx := h.ChannelIndex
-		if idx < 0 || idx >= ds.nchan || seenOff[idx] {
-			c.Violate("c19:file-index", "%s: %s: header stream index %d is out of range or appears in two OFF files", what, fn, idx)
+		if idx < 0 || idx >= ds.nchan || seenOff[idx] || !withModel[idx] {
+			c.Violate("c19:file-index", "%s: %s: header stream index %d is out of range, appears in two OFF files or is that of a stream without a model (streams with a model: %v)", what, fn, idx, withModel)
 			return
 		}
 		seenOff[idx] = true
